@@ -788,6 +788,9 @@ pub fn exhaustive_family(prop: &str, tier: &str, rng: &mut Rng, shard: (usize, u
                     }
                 }
             }
+            for d in variable_graph_cases(rng, budget(tier, 3000, 60000)) {
+                docs.push(("variable-graphs".to_string(), d.print()));
+            }
             for (vb, vk, dk, l1, d1, l2, d2, split) in pick_sample(two, budget(tier, 2500, 100000), rng) {
                 if let Some(d) = two_usages_case(vb, vk, dk, l1, d1, l2, d2, split) {
                     docs.push(("variable-two-usages".to_string(), d.print()));
